@@ -322,6 +322,7 @@ pub fn run_property(prop: &'static dyn Prop, tier: Tier, seed: u64, root: &Path)
     let mut crash_notes: Vec<Value> = vec![];
     let mut unconfirmed = 0u64;
     let mut over_budget = 0u64;
+    let mut sut_crashes = 0u64;
     let mut reruns = 0usize;
     // dedupe incidents by input
     let mut seen_inc: HashSet<String> = HashSet::new();
@@ -337,6 +338,12 @@ pub fn run_property(prop: &'static dyn Prop, tier: Tier, seed: u64, root: &Path)
         }
         let exempt = prop.timeout_exempt_phase();
         let in_exempt_phase = exempt.is_some() && exempt == Some(inc.phase);
+        if inc.kind == "crash" && !prop.sut_crash_is_violation() {
+            crash_notes.push(json!({"kind": inc.kind, "section": inc.sec, "choices_hex": inc.input_hex, "index": inc.index,
+                                    "first_status": inc.status, "note": "the code under test killed the worker process; not a verdict for this property (C14 owns crashes), not re-run"}));
+            sut_crashes += 1;
+            continue;
+        }
         if (inc.kind == "timeout" && !timeout_is_violation) || in_exempt_phase {
             // not a verdict for this property: recorded as an inconclusive case
             let note = if in_exempt_phase {
@@ -522,6 +529,7 @@ pub fn run_property(prop: &'static dyn Prop, tier: Tier, seed: u64, root: &Path)
     coverage.insert("incidents".into(), json!(crash_notes));
     coverage.insert("incidents_not_reproduced_alone".into(), json!(unconfirmed));
     coverage.insert("cases_over_time_budget".into(), json!(over_budget));
+    coverage.insert("cases_where_the_code_under_test_crashed_the_process".into(), json!(sut_crashes));
     coverage.insert("shards".into(), json!(nshards));
     if let Some(o) = prop.extra_evidence(tier).as_object() {
         for (k, v) in o {
